@@ -51,6 +51,12 @@ structure Oracles where
   /-- `arrayMap(x -> x[length(x)], extractAllGroupsHorizontal(subject, pattern))`: pattern, subject ↦ for every capture
       group of the pattern the text it captured in the LAST match ('' when there is none) -/
   reCaps : Bytes → Bytes → List Bytes := fun _ _ => []
+  -- ---- added for C08 ext (quantile_over_time, stddev); additive
+  /-- `quantile(φ)(x)` over the values of a group, in the order the rows are read: ClickHouse's `quantile` (reservoir of
+      8192 values, interpolation) is not interpreted; both sides of the C08 theorems apply this one function -/
+  quantile : Rat → List Rat → Rat := fun _ _ => 0
+  /-- the square root `stddevPop` takes of `varPop` (not a rational function: uninterpreted, shared by both sides) -/
+  sqrt : Rat → Rat := fun x => x
 
 def boolVal (x : Bool) : Val := .int (if x then 1 else 0)
 def Val.truthy : Val → Bool
@@ -252,6 +258,7 @@ def evalE (o : Oracles) (env : Env) (r : Row) : Expr → Val
   | .labelsFp => match r.get "labels" with
     | .map m => .int (o.cityHash (sortPairs m))
     | _ => .null
+  | .quantileAgg _ _ _ => .null      -- an aggregate: only meaningful per group (`Sql.SemAgg`)
 def evalEs (o : Oracles) (env : Env) (r : Row) : List Expr → List Val
   | [] => []
   | e :: es => evalE o env r e :: evalEs o env r es
